@@ -28,7 +28,7 @@ ASSUMPTIONS = [
     'the Python simulators are used only for tapes that load within a few seconds of tape time or with fast-load',
 ]
 
-CONTENT = st.sampled_from(['rand', 'rand', 'zeros', 'ff', 'alt'])
+CONTENT = st.sampled_from(['rand', 'rand', 'zeros', 'ff', 'alt', 'edtail2', 'edtail3', 'edtail4'])
 
 
 def make_data(kind, n, seed):
@@ -38,7 +38,12 @@ def make_data(kind, n, seed):
         return b'\xff' * n
     if kind == 'alt':
         return bytes((0x55, 0xAA, 0x00, 0xFF)[i % 4] for i in range(n))
-    return bytes(gen_prog.fill_bytes(seed, n, 2))
+    data = bytes(gen_prog.fill_bytes(seed, n, 2))
+    if kind.startswith('edtail'):
+        # a short run of the Z80 format's escape byte at the very end (of the binary and, with the default ORG, of a RAM page)
+        k = min(n, int(kind[6:]))
+        data = data[:n - k] + b'\xed' * k
+    return data
 
 
 @st.composite
@@ -146,9 +151,13 @@ def cases128(draw, tier):
 
 @st.composite
 def cases(draw, tier):
+    out_fmt = draw(st.sampled_from(['szx', 'z80']))
     if draw(st.integers(0, 4)) == 0:
-        return draw(cases128(tier))
-    return draw(cases48(tier))
+        case = draw(cases128(tier))
+    else:
+        case = draw(cases48(tier))
+    case['out_fmt'] = out_fmt
+    return case
 
 
 def build_tape(s, case):
@@ -229,11 +238,14 @@ def run_tap2sna(s, case, tape, load, outname='out.szx', capture=False):
 def oracle(case, rec=None):
     with cli.Scratch('c12-') as s:
         tape, exp = build_tape(s, case)
-        out, reason, stdout = run_tap2sna(s, case, tape, case['load'])
+        out, reason, stdout = run_tap2sna(s, case, tape, case['load'], 'out.' + case.get('out_fmt', 'szx'))
         if reason != 'PC at start address':
             raise Violation('load-did-not-reach-start:%s' % (reason or 'none'), 'tap2sna %r ended with %r; stdout tail: %s' % (case['load'], reason, stdout[-200:]), case)
         from skoolkit.snapshot import Snapshot
-        sn = Snapshot.get(out)
+        try:
+            sn = Snapshot.get(out)
+        except Exception as x:
+            raise Violation(crash_sig(x, 'read'), 'the snapshot written by tap2sna cannot be read back: %r' % x, case)
         check_snapshot(case, exp, sn)
     if rec is not None:
         if case['kind'] == '48':
